@@ -136,7 +136,8 @@ fn gen_positions(rng: &mut Rng, text: &str, n_in: usize) -> Vec<((u32, u32), (u3
 }
 
 fn gen_doc(rng: &mut Rng, corpus: &Corpus) -> (String, &'static str) {
-    match rng.below(10) {
+    match rng.below(14) {
+        10..=13 => (feature_doc(rng), "feature-snippets"),
         0..=4 => (corpus.pick(rng).to_string(), "corpus"),
         5..=7 => {
             let b = corpus.pick(rng);
@@ -179,7 +180,14 @@ pub fn run(ctx: &mut Ctx) {
         if text.len() > 6000 {
             continue;
         }
-        let positions = gen_positions(&mut rng, &text, 10);
+        let mut positions = gen_positions(&mut rng, &text, 10);
+        if fam == "feature-snippets" {
+            // cursor anywhere, not only at token boundaries (after trigger characters, inside argument lists)
+            let all = all_positions(&text);
+            for p in sample(&mut rng, &all, 40) {
+                positions.push((p, p));
+            }
+        }
         let methods: Vec<usize> = (0..METHODS.len()).collect();
         let npos = positions.len();
         let r = run_doc(&ctx.work.clone(), &text, positions, methods);
